@@ -222,10 +222,16 @@ def csrf_check_contract():
         v = a[0]
         return {'CookieText': 'cookie', 'TokenText': 'salt'}.get(type(v).__name__, v if isinstance(v, str) else 'other')
 
+    def canonical(eng, jti, what):
+        # a token is identified by its decoded text: two spellings of one token (percent-encoding) must share one key
+        eng.oblige('call', f'{what}.key_is_the_decoded_token', z3.BoolVal(isinstance(jti, TokenText) and jti.part == 'all'))
+
     def get_one(eng, e, a, kw):
+        canonical(eng, kw.get('jti'), 'Token.get_one')
         return Opt(z3.Not(eng.world['token_used']), Obj('Token', {}))
 
     def add(eng, e, a, kw):
+        canonical(eng, a[0].f.get('jti') if isinstance(a[0], Obj) else None, 'db.session.add')
         eng.lookup('__store__').added.append(a[0])
 
     class Headers:
@@ -318,7 +324,8 @@ GROUP = Group(
         'C15: "state unchanged" is reduced to "handler body not entered"',
         'C15: CsrfProtection.check: HMAC-SHA1 over (secret, cookie, service[, origin], salt) is injective and unforgeable - the '
         'submitted signature equals the computed one iff the token is unmodified and was issued for this cookie, service (and '
-        'origin in strict mode); the store of used tokens is observed at the submitted token only; quote / unquote are inverse',
+        'origin in strict mode); the store of used tokens is observed at the submitted token only and keyed by the decoded token text (obligation at '
+        'both store accesses); quote / unquote are inverse',
     ],
     not_covered=['the handler bodies (what they change), JWT / session establishment, CsrfProtection.generate_token '
                  '(the issuing side), token pruning, uses_* loaders'],
